@@ -233,4 +233,54 @@ theorem lookup_endpoint (h : Nat) (hh : 0 < h) (y : Int → Int) :
   have : h ≤ 2 * h / 2 := by omega
   simp only [this, if_true]
 
+/-- **the look-up at EVERY exponent** (`N = 2h`, `e` any integer, `r = e mod 2N ∈ [0, 4h)`): both halves of the table and
+    the negacyclic sign: `y r` for `r < h`, `−y(r − N)` for `h ≤ r < 3h` (the wrapped half: `X^r = −X^{r−N}`), `y(r − 2N)`
+    for `r ≥ 3h`.  In centred terms: `y e'` for `e' ∈ [−N/2, N/2)`, `−y(e' ∓ N)` outside. -/
+theorem lookup_all (h : Nat) (hh : 0 < h) (y : Int → Int) (e : Int) :
+    let r := (e % ((2 * (2 * h) : Nat) : Int)).toNat
+    lookup (2 * h) (testPolyInts (2 * h) y) e =
+      if r < h then y r else if r < 3 * h then -(y ((r : Int) - (2 * h : Nat))) else y ((r : Int) - (4 * h : Nat)) := by
+  intro r
+  have hr4 : r < 4 * h := by
+    have h1 : e % ((2 * (2 * h) : Nat) : Int) < ((2 * (2 * h) : Nat) : Int) := Int.emod_lt_of_pos _ (by push_cast; omega)
+    have h2 : 0 ≤ e % ((2 * (2 * h) : Nat) : Int) := Int.emod_nonneg _ (by push_cast; omega)
+    show (e % ((2 * (2 * h) : Nat) : Int)).toNat < 4 * h
+    omega
+  have hNh : 2 * h / 2 = h := by omega
+  unfold lookup
+  simp only
+  show (if r = 0 then (testPolyInts (2 * h) y).getD 0 0
+        else if r ≤ 2 * h then -((testPolyInts (2 * h) y).getD (2 * h - r) 0)
+        else (testPolyInts (2 * h) y).getD (2 * (2 * h) - r) 0) = _
+  by_cases h0 : r = 0
+  · simp only [h0, if_true, testPolyInts, hh, Nat.cast_zero]
+    rw [getD_range_map _ _ 0 (by omega)]
+    simp
+  · simp only [h0, if_false]
+    by_cases h1 : r ≤ 2 * h
+    · simp only [h1, if_true, testPolyInts]
+      rw [getD_range_map _ _ (2 * h - r) (by omega)]
+      by_cases h2 : r < h
+      · have c : ¬ (2 * h - r ≤ 2 * h / 2) := by omega
+        simp only [c, if_false, h2, if_true, neg_neg]
+        congr 1
+        omega
+      · have c : 2 * h - r ≤ 2 * h / 2 := by omega
+        have c3 : r < 3 * h := by omega
+        simp only [c, if_true, h2, if_false, c3]
+        congr 2
+        omega
+    · simp only [h1, if_false, testPolyInts]
+      rw [getD_range_map _ _ (2 * (2 * h) - r) (by omega)]
+      have c0 : ¬ r < h := by omega
+      by_cases h3 : r < 3 * h
+      · have c : ¬ (2 * (2 * h) - r ≤ 2 * h / 2) := by omega
+        simp only [c, if_false, c0, h3, if_true]
+        congr 2
+        omega
+      · have c : 2 * (2 * h) - r ≤ 2 * h / 2 := by omega
+        simp only [c, if_true, c0, h3, if_false]
+        congr 1
+        omega
+
 end Lattigo.RGSW.BlindRot
